@@ -154,6 +154,10 @@ pub fn seeds(f: F) -> Vec<Vec<u8>> {
 				"{a: 1}{b: 2}",
 				"\u{7a0}: 1\n",
 				"--- a\n--- b\n...\n... \n",
+				"# c\n\n   a: 1\n   b: 22\n",
+				"\n  - 1\n  - 20",
+				"# c\n  name: xt\n  size: 2048",
+				"a: 1\n...\n# c\n   k: vvv\n   l: www\n",
 			] {
 				v.push(s.as_bytes().to_vec());
 			}
